@@ -192,11 +192,13 @@ CLAIMED = {
         design="§4 C18", technique="data-to-Coq translation + finite-domain proofs by vm_compute + exhaustive correspondence",
         note="reference (V,E,F) table hand-written; geometric facts need the hull and are decided by the exhaustive correspondence (1e-6); known finding science-J86-edge-precision."),
     "C12": dict(
-        text="PARTIAL. Theorems for the code's polygon line-integral formula, every vertex cycle: each edge term IS -i((e x q).n/q^2) times the plane wave "
+        text="PARTIAL. Theorems for the code's polygon line-integral formula: for a triangle in the xy-plane and an in-plane q in generic position the formula "
+             "EQUALS the Fourier integral J*intint exp(-i q.r) over the affinely parametrised triangle (Coquelicot double RInt, real and imaginary parts); "
+             "every vertex cycle: each edge term IS -i((e x q).n/q^2) times the plane wave "
              "integrated along the edge (Coquelicot RInt, the sinc closed form proved incl. q.e = 0); the polygon amplitude is the sum of the amplitudes of its "
              "fan triangles (chord cancellation); F(-q) = conj F(q); translation by t multiplies by "
              "exp(-i q.t); reversing the vertex order negates the line integral (so the as-found code was orientation dependent - refuted - and the "
-             "repaired code with the sign(signed_area) factor is orientation free). Not proved: boundary integral = area integral (planar divergence theorem), polyhedron and "
+             "repaired code with the sign(signed_area) factor is orientation free). Not proved: degenerate q directions, other planes (covariance), polyhedron and "
              "sphere analogues. Correspondence decides those: implementation vs direct Gauss-Legendre quadrature of exp(-i q.r) over the signed tetrahedra "
              "/ fan triangles / the sphere's radial integral (independent of the Stokes formula) for convex and non-convex solids, polygons in both "
              "orientations and tilted planes, spheres, off-origin; q random, along face normals, perpendicular to edges, along axes, zero; density; "
